@@ -2415,3 +2415,108 @@ def pair10_builder_slot(P, R, L, rule="PAIR-10"):
                 e += t.ok_edges()
         ok = all(cc.must_pass(a.bb, through_edges=e) for a in ab) and bool(e) if ab else True
         R.check(rule, CLEANUP + "|abandon-only-open-builder", ok, where(cc), "cleanup_compaction abandons a builder only if one is present", "")
+
+
+# ------------------------------------------------------------------------------------------- LCK-5 version-node RwLock nesting
+VNODE = "linked_list::Node<versioning::version::Version>"
+RW_READ = "parking_lot::lock_api::RwLock::read"
+RW_WRITE = "parking_lot::lock_api::RwLock::write"
+
+
+def lck5_version_rwlock(P, R, L, rule="LCK-5"):
+    """parking_lot's RwLock is not re-entrant: taking the write lock of a version node while the same thread still holds a
+    read or write guard of a version node (or a read lock while it holds a write guard) can self-deadlock. Class-level
+    rule (all version nodes are one class): while a guard on Node<Version> is live in a body, no call may reach a
+    conflicting acquisition on Node<Version>."""
+    def is_vnode_lock(cs, which):
+        return cs.name == which and any(VNODE in x for x in (cs.t.get("substs") or []) + [cs.t.get("self_ty") or ""])
+
+    # summaries: bodies that (sync, transitively) take a read / write lock on a version node
+    takes = {"r": set(), "w": set()}
+    for p, b in P.bodies.items():
+        for cs in b.calls():
+            if is_vnode_lock(cs, RW_READ):
+                takes["r"].add(p)
+            if is_vnode_lock(cs, RW_WRITE):
+                takes["w"].add(p)
+    cg = P.callgraph(sync_only=True)
+    changed = True
+    while changed:
+        changed = False
+        for p, succs in cg.items():
+            for k in ("r", "w"):
+                if p not in takes[k] and succs & takes[k]:
+                    takes[k].add(p)
+                    changed = True
+    n_bodies = 0
+    for p, b in sorted(P.bodies.items()):
+        locks = [cs for cs in b.calls() if (is_vnode_lock(cs, RW_READ) or is_vnode_lock(cs, RW_WRITE)) and not b.is_cleanup(cs.bb)]
+        if not locks:
+            continue
+        n_bodies += 1
+        R.analysed(b)
+        guard_kind = {cs.dest["l"]: ("r" if cs.name == RW_READ else "w") for cs in locks if not cs.dest["p"]}
+        bad = []
+
+        def transfer(bb, us, phase, data, b=b, guard_kind=guard_kind, bad=bad):
+            if phase == "stmts":
+                cur = set(us)
+                for st in data["stmts"]:
+                    if st["k"] == "assign" and st["rv"]["k"] == "use" and st["rv"]["ops"][0]["k"] == "move" and not st["rv"]["ops"][0]["pl"]["p"]:
+                        src = st["rv"]["ops"][0]["pl"]["l"]
+                        for (g, k) in list(cur):
+                            if g == src and not st["pl"]["p"]:
+                                cur.discard((g, k))
+                                cur.add((st["pl"]["l"], k))
+                return frozenset(cur)
+            lab, tg = data
+            t = b.term(bb)
+            cur = set(us)
+            if t["k"] == "drop" and not t["pl"]["p"]:
+                cur = {(g, k) for (g, k) in cur if g != t["pl"]["l"]}
+            elif t["k"] == "call":
+                from ..cfg import CallSite
+                cs = CallSite(b, bb, t)
+                if cur and lab == "ret":
+                    held = {k for (_, k) in cur}
+                    wants = set()
+                    if is_vnode_lock(cs, RW_READ):
+                        wants.add("r")
+                    if is_vnode_lock(cs, RW_WRITE):
+                        wants.add("w")
+                    for c in P.callees_of_site(cs, sync_only=True):
+                        if c in takes["r"]:
+                            wants.add("r")
+                        if c in takes["w"]:
+                            wants.add("w")
+                    if "w" in wants or ("r" in wants and "w" in held):
+                        bad.append((t.get("line"), cs.name, sorted(held), sorted(wants)))
+                for a in t["args"]:
+                    if a["k"] == "move" and not a["pl"]["p"]:
+                        cur = {(g, k) for (g, k) in cur if g != a["pl"]["l"]}
+                if lab == "ret" and not t["dest"]["p"] and t["dest"]["l"] in guard_kind and (is_vnode_lock(cs, RW_READ) or is_vnode_lock(cs, RW_WRITE)):
+                    cur.add((t["dest"]["l"], guard_kind[t["dest"]["l"]]))
+            return frozenset(cur)
+        try:
+            seen, _ = b.explore(frozenset(), transfer)
+            R.paths += len(seen)
+        except Exception:
+            bad.append((b.line_lo, "exploration cap", [], []))
+        uniq = sorted({(ln, nm) for (ln, nm, _, _) in bad})
+        R.check(rule, "%s|version-rwlock-nesting" % p, not uniq, where(b),
+                "no conflicting version-node RwLock acquisition while a version-node guard is live in this body",
+                "; ".join("line %s: %s while a guard is held" % (ln, nm) for ln, nm in uniq[:4]) or "%d acquisition sites, none nested" % len(locks))
+    R.floor(rule, "bodies that lock a version node", n_bodies, 10)
+
+
+def lck6_manual_config_lock_order(P, R, L, rule="LCK-6"):
+    """The manual-compaction configuration mutex is only ever taken while the DB mutex is held (the invariant stated at
+    GuardedDbFields::maybe_manual_compaction): one lock order, no ABBA deadlock between requester and worker."""
+    MC = "compaction::manual_compaction::ManualCompactionConfiguration"
+    sites = [c for c in P.callers_of("parking_lot::lock_api::Mutex::lock") if MC in (c.t.get("substs") or []) and not c.body.is_cleanup(c.bb)]
+    R.floor(rule, "manual-compaction mutex acquisitions", len(sites), 3)
+    for c in sites:
+        R.analysed(c.body)
+        st = L.site_state(c)
+        R.check(rule, "%s|manual-config-locked-under-db-mutex" % c.body.path, st == "held", c.where(),
+                "the manual compaction configuration is locked only while the DB mutex is held", "state=%s" % st)
